@@ -70,6 +70,13 @@ class World:
         for k, v in (c.loops() or {}).items():
             self.loops[(c.qualname, k)] = v
 
+    def register_fragment(self, c):
+        """fragment / prefix contracts are addressed by their key and never used at call sites"""
+        self.contracts[c.key] = c
+        c._world = self
+        for k, v in (c.loops() or {}).items():
+            self.loops[(c.qualname, k)] = v
+
     def loop_spec(self, qualname, ordinal):
         ls = self.loops.get((qualname, ordinal))
         if ls is None:
